@@ -47,7 +47,8 @@ SnOf ==
    pods |-> IF Mode = "pods" THEN PodSeq ELSE OnePod, revs |-> RevSeq, pvcs |-> {},
    fresh |-> [exists |-> fresh # "absent", sameUid |-> fresh \in {"ok", "deleting"},
               deleting |-> (fresh = "deleting" \/ (del /\ fresh = "ok")), rvSame |-> fresh = "ok"],
-   cacheIntact |-> TRUE]
+   cacheIntact |-> TRUE,
+   apods |-> ApiFromCache(IF Mode = "pods" THEN PodSeq ELSE OnePod), apvcs |-> {}, faults |-> <<>>]
 
 Init == /\ pol \in (IF Mode = "pods" THEN {"OrderedReady", "Parallel"} ELSE {"OrderedReady"})
         /\ del \in BOOLEAN /\ paused \in BOOLEAN /\ fresh \in {"ok", "absent", "otherUid", "deleting"}
@@ -61,6 +62,7 @@ Next == /\ lvl = 0 /\ lvl' = 1
         /\ UNCHANGED <<pol, del, paused, fresh, rep, hl, tmpl>>
 
 M == Sync(SnOf)
+I_C09 == C09(SnOf, M.calls, M.res)
 I_C10 == C10(SnOf, M.calls, M.res)
 I_C11 == C11(SnOf, M.calls)
 I_C12 == C12(SnOf, M.calls)
